@@ -7,8 +7,13 @@ package util
 import (
 	"strings"
 
+	kruiseappsv1alpha1 "github.com/openkruise/kruise-api/apps/v1alpha1"
 	"github.com/openkruise/rollouts/pkg/verifrt"
+	"github.com/openkruise/rollouts/pkg/verifrt/symclient"
 	appsv1 "k8s.io/api/apps/v1"
+	corev1 "k8s.io/api/core/v1"
+	metav1 "k8s.io/apimachinery/pkg/apis/meta/v1"
+	"sigs.k8s.io/controller-runtime/pkg/client"
 )
 
 func VerifC12_IsConsistentWithRevision() {
@@ -31,4 +36,107 @@ func VerifC12_IsConsistentWithRevision() {
 	if !hasTmpl && !hasCrh {
 		verifrt.Assert(!got, "C12.revision.unlabelledPodIsNeverOfTheUpdateRevision")
 	}
+}
+
+// VerifC12_ListOwnedPodsReturnsOnlyLiveOwnedPods: the pod listing that feeds every batch-label decision.  The label
+// patcher trusts this list (it only re-checks deletion timestamp and revision hash), so the list itself must contain
+// exactly the pods the API server returned for the selector that (a) have not completed (Failed / Succeeded) and
+// (b) are controlled by the workload — directly, or through a ReplicaSet the workload controls.  A live pod of a
+// shadow workload with the same selector, or an evicted pod of the new revision, would otherwise take a batch label
+// and use up the batch budget.
+func VerifC12_ListOwnedPodsReturnsOnlyLiveOwnedPods() {
+	isCtrl := true
+	deployment := verifrt.Bool("workload.isDeployment")
+	var workload client.Object
+	sel := &metav1.LabelSelector{MatchLabels: map[string]string{"app": "w"}}
+	if deployment {
+		d := &appsv1.Deployment{ObjectMeta: metav1.ObjectMeta{Namespace: "ns", Name: "w", UID: "uid-w"}}
+		d.Spec.Selector = sel
+		workload = d
+	} else {
+		cs := &kruiseappsv1alpha1.CloneSet{ObjectMeta: metav1.ObjectMeta{Namespace: "ns", Name: "w", UID: "uid-w"}}
+		cs.Spec.Selector = sel
+		workload = cs
+	}
+	// ReplicaSets in the namespace: one controlled by the workload (when it is a Deployment), one by a shadow Deployment
+	rsOwn := &appsv1.ReplicaSet{ObjectMeta: metav1.ObjectMeta{Namespace: "ns", Name: "w-rs", UID: "uid-rs-own",
+		OwnerReferences: []metav1.OwnerReference{{APIVersion: "apps/v1", Kind: "Deployment", Name: "w", UID: "uid-w", Controller: &isCtrl}}}}
+	rsShadow := &appsv1.ReplicaSet{ObjectMeta: metav1.ObjectMeta{Namespace: "ns", Name: "shadow-rs", UID: "uid-rs-shadow",
+		OwnerReferences: []metav1.OwnerReference{{APIVersion: "apps/v1", Kind: "Deployment", Name: "shadow", UID: "uid-shadow", Controller: &isCtrl}}}}
+	shadow := &appsv1.Deployment{ObjectMeta: metav1.ObjectMeta{Namespace: "ns", Name: "shadow", UID: "uid-shadow"}}
+	n := verifrt.Bound("pods", 2, 3)
+	pods := make([]corev1.Pod, n)
+	wantOwned := make([]bool, n)
+	wantLive := make([]bool, n)
+	for i := range pods {
+		p := &pods[i]
+		p.Namespace, p.Name = "ns", []string{"p0", "p1", "p2"}[i]
+		p.Labels = map[string]string{"app": "w"}
+		switch verifrt.IntRange("pod.phase", 0, 3) {
+		case 0:
+			p.Status.Phase = corev1.PodRunning
+		case 1:
+			p.Status.Phase = corev1.PodPending
+		case 2:
+			p.Status.Phase = corev1.PodFailed
+		case 3:
+			p.Status.Phase = corev1.PodSucceeded
+		}
+		wantLive[i] = p.Status.Phase != corev1.PodFailed && p.Status.Phase != corev1.PodSucceeded
+		switch verifrt.IntRange("pod.owner", 0, 4) {
+		case 0: // nobody
+		case 1: // the workload itself
+			kind, api := "CloneSet", "apps.kruise.io/v1alpha1"
+			if deployment {
+				kind, api = "Deployment", "apps/v1"
+			}
+			p.OwnerReferences = []metav1.OwnerReference{{APIVersion: api, Kind: kind, Name: "w", UID: "uid-w", Controller: &isCtrl}}
+			wantOwned[i] = true
+		case 2: // a ReplicaSet of the workload
+			p.OwnerReferences = []metav1.OwnerReference{{APIVersion: "apps/v1", Kind: "ReplicaSet", Name: "w-rs", UID: "uid-rs-own", Controller: &isCtrl}}
+			wantOwned[i] = deployment
+		case 3: // a ReplicaSet of the shadow Deployment (same selector)
+			p.OwnerReferences = []metav1.OwnerReference{{APIVersion: "apps/v1", Kind: "ReplicaSet", Name: "shadow-rs", UID: "uid-rs-shadow", Controller: &isCtrl}}
+		case 4: // another workload of the same kind, directly
+			p.OwnerReferences = []metav1.OwnerReference{{APIVersion: "apps.kruise.io/v1alpha1", Kind: "CloneSet", Name: "other", UID: "uid-other", Controller: &isCtrl}}
+		}
+	}
+	objs := []client.Object{shadow, rsShadow}
+	if deployment {
+		objs = append(objs, rsOwn)
+	}
+	cli := &symclient.Client{Objects: objs}
+	cli.ListFn = func(list client.ObjectList, opts []client.ListOption) error {
+		if l, ok := list.(*corev1.PodList); ok {
+			l.Items = pods
+		}
+		return nil
+	}
+	got, err := ListOwnedPods(cli, workload)
+	verifrt.Assert(err == nil, "C12.listing.noError")
+	if err != nil {
+		return
+	}
+	want := 0
+	for i := range pods {
+		in := false
+		for _, g := range got {
+			if g.Name == pods[i].Name {
+				in = true
+			}
+		}
+		if wantOwned[i] && wantLive[i] {
+			want++
+			verifrt.Assert(in, "C12.listing.everyLiveOwnedPodListed")
+		} else {
+			if !wantOwned[i] {
+				verifrt.Assert(!in, "C12.listing.foreignPodsNeverListed")
+			}
+			if !wantLive[i] {
+				verifrt.Assert(!in, "C12.listing.completedPodsNeverListed")
+			}
+		}
+	}
+	verifrt.Assert(len(got) == want, "C12.listing.exactlyTheLiveOwnedPods")
+	verifrt.Cover("C12.listing.done")
 }
